@@ -347,6 +347,11 @@ func (fr *Frame) execInstr(in ssa.Instruction, st *State) *State {
 			}
 			c := fr.leafCell(x.Addr)
 			fr.checkGuardedStore(x, c, st)
+			if u.w.sh.nonNilField[c.key] {
+				if v := fr.val(x.Val); v.Sort == SLoc {
+					u.oblige(fr, "typeinv", x.Pos(), "value stored in "+c.key+" is non-nil", st.pc, Neq(v, NilLoc), false)
+				}
+			}
 			fr.storeValue(st, et, c.idx, &c, fr.val(x.Val), x.Addr)
 		}
 		return st
@@ -521,9 +526,9 @@ func (fr *Frame) execUnOp(x *ssa.UnOp, st *State) *State {
 			v = fr.loadValue(st, et, fr.val(x.X), nil)
 		} else {
 			c := fr.leafCell(x.X)
-			fr.checkGuardedLoad(x, c, st)
 			v = fr.loadLeaf(st, c)
 			fr.setReg(x, v)
+			fr.checkGuardedLoad(x, c, st)
 			fr.assumeTypeInv(st, fr.regs[x], et)
 			fr.assumeFieldInv(st, x, c)
 			return st
@@ -762,7 +767,7 @@ func (fr *Frame) convert(x *ssa.Convert, st *State) Term {
 		u.note("float to int conversion in %s not modelled precisely", fr.key)
 		return r
 	case fs == SInt && ts == SStr:
-		return mk(SStr, "str.fromint", v)
+		return mk(SStr, "s.fromint", v)
 	case fs == ts:
 		return v
 	}
@@ -794,7 +799,7 @@ func (fr *Frame) execIndexAddr(x *ssa.IndexAddr, st *State) *State {
 		if sz != 1 {
 			off = Mul(iv, IntLit(int64(sz)))
 		}
-		fr.setReg(x, MkLoc(Obj(SPtr(xv)), Add(Off(SPtr(xv)), off)))
+		fr.setReg(x, Elem(SPtr(xv), off))
 	case *types.Pointer: // pointer to array
 		at := xt.Elem().Underlying().(*types.Array)
 		u.oblige(fr, "nil-deref", x.Pos(), fr.srcText(x.Pos(), "index"), st.pc, Neq(xv, NilLoc), false)
@@ -804,7 +809,7 @@ func (fr *Frame) execIndexAddr(x *ssa.IndexAddr, st *State) *State {
 		if sz != 1 {
 			off = Mul(iv, IntLit(int64(sz)))
 		}
-		fr.setReg(x, MkLoc(Obj(xv), Add(Off(xv), off)))
+		fr.setReg(x, Elem(xv, off))
 	default:
 		fr.regs[x] = u.fresh(fr.vname(x), SLoc)
 	}
@@ -871,7 +876,7 @@ func (fr *Frame) execSlice(x *ssa.Slice, st *State) *State {
 			off = Mul(lo, IntLit(int64(sz)))
 		}
 		// Go: if the result has capacity 0 the pointer may be anything; keep base
-		fr.setReg(x, MkSlice(MkLoc(Obj(SPtr(xv)), Add(Off(SPtr(xv)), off)), Sub(hi, lo), Sub(mx, lo)))
+		fr.setReg(x, MkSlice(Elem(SPtr(xv), off), Sub(hi, lo), Sub(mx, lo)))
 	case *types.Pointer: // *[N]T
 		at := xt.Elem().Underlying().(*types.Array)
 		n := IntLit(at.Len())
@@ -898,7 +903,7 @@ func (fr *Frame) execSlice(x *ssa.Slice, st *State) *State {
 		if sz != 1 {
 			off = Mul(lo, IntLit(int64(sz)))
 		}
-		fr.setReg(x, MkSlice(MkLoc(Obj(xv), Add(Off(xv), off)), Sub(hi, lo), Sub(mx, lo)))
+		fr.setReg(x, MkSlice(Elem(xv, off), Sub(hi, lo), Sub(mx, lo)))
 	default:
 		fr.regs[x] = u.fresh(fr.vname(x), w.sortOf(x.Type()))
 	}
@@ -1033,6 +1038,12 @@ func (fr *Frame) execTypeAssert(x *ssa.TypeAssert, st *State) *State {
 			res = fr.loadValue(st, x.AssertedType, IVal(v), nil)
 		} else {
 			res = fr.loadLeaf(st, w.typeCell(x.AssertedType, IVal(v)))
+		}
+	}
+	if w.sortOf(x.AssertedType) == SLoc {
+		if n, isNamed := derefType(x.AssertedType).(*types.Named); isNamed && n.Obj().Pkg() != nil && !w.inRepo(n.Obj().Pkg().Path()) {
+			// modelling assumption: interface values of dependency types (protobuf oneof wrappers) never hold typed nil pointers
+			u.assume(True, Implies(ok, Neq(IVal(v), NilLoc)))
 		}
 	}
 	if x.CommaOk {
